@@ -7,8 +7,18 @@ import "time"
 // drop tasks are batched as a list plus two counters; RemoveAll must hand the
 // whole batch over exactly once: what it returns accounts for every task
 // added since the previous RemoveAll, and nothing of it is handed over again.
+type verifReportWriter struct{ reports []*StatReport }
+
+func (w *verifReportWriter) Write(r *StatReport) error {
+	w.reports = append(w.reports, r)
+	return nil
+}
+
 func Verif_C16_metrics_container() {
 	c := &metricsContainer{name: "m", pid: 1}
+	w := &verifReportWriter{}
+	SetReportWriter(w)
+	defer SetReportWriter(nil)
 	n1 := verifChoose("first", verifParam("maxTasks")+1)
 	var wantDur time.Duration
 	wantTasks, wantDrops := 0, 0
@@ -31,6 +41,21 @@ func Verif_C16_metrics_container() {
 	p1, ok := c.RemoveAll().(tasksDurationPair)
 	verifAssert(ok, "RemoveAll hands over a tasksDurationPair")
 	verifAssert(len(p1.tasks) == wantTasks && p1.drops == wantDrops && p1.duration == wantDur, "the first batch accounts for exactly the tasks added: request tasks, their total duration, drop tasks")
+
+	// the execute function reports the batch it is given - whatever it consists of: a batch
+	// of drop tasks only (a service shedding all of its load) is a batch like any other
+	c.Execute(p1)
+	if wantTasks+wantDrops > 0 {
+		verifAssert(len(w.reports) == 1, "a batch with at least one task is executed into exactly one report")
+		if len(w.reports) == 1 {
+			r := w.reports[0]
+			verifAssert(r.Name == "m" && r.Pid == 1 && r.Drops == wantDrops, "the report carries the batch's drop tasks")
+			verifAssert((r.ReqsPerSecond > 0) == (wantTasks > 0), "the report carries the batch's request tasks")
+		}
+		if wantTasks == 0 {
+			verifReach("drop-only-batch")
+		}
+	}
 
 	// nothing of the first batch may be handed over again
 	wantTasks, wantDrops, wantDur = 0, 0, 0
